@@ -87,6 +87,10 @@ def derived_items():
           seq('vec', snamed), opt(eplain), arr(2, stuple), seq('deque', eplain), res(edisc, kstruct),
           seq('btreeset', kstruct), mapk('hashmap', kstruct, snamed), seq('hashset', kenum), mapk('btreemap', kenum, seq('vec', edisc)),
           seq('hashset', edisc), seq('vec', sunit), wrap('box', snest), tup(eplain, edisc, kenum)]
+    # same declaration "Msg", different definitions (crate::items::v1::Msg / v2::Msg); appended last
+    # so that earlier catalogue ids do not move
+    ts += [('prod', ('struct', 'Msg', ('a', 'b'), (False, False)), (u32, u32)),
+           ('prod', ('struct', 'Msg', ('id',), (False,)), (P('u64'),))]
     return ts
 
 
@@ -151,6 +155,20 @@ def canon_entries():
     return out
 
 
+# ---------------------------------------------------------------- recursive derived items
+# (harness/src/items_rec.rs).  A THIRD id range: `ty` has no recursive types, so these entries
+# have no catalogue type at all -- lib/reccorr.py types their values at finite unfoldings
+# (gen/rectypes.py) and names the Rust type by these ids only.  catalogue_types() and
+# canon_entries() are unchanged; no other check sees these entries.
+REC_BASE = 200000
+REC_ITEMS = ('Tree', 'List', 'Json', 'Rec')
+
+
+def rec_entries():
+    """[(id, item name)]"""
+    return [(REC_BASE + i, n) for i, n in enumerate(REC_ITEMS)]
+
+
 def emit_rs(path):
     cat = catalogue_types()
     lines = ['// GENERATED by gen/catalogue.py -- do not edit.',
@@ -170,6 +188,8 @@ def emit_rs(path):
         lines.append('%s    v.push(%s::<%s>(%d, %s));' % (guard, fn, r, i, '"' + r.replace('"', '') + '"'))
     for (i, t, ctor) in canon_entries():
         lines.append('    v.push(%s(%d, "%s"));' % (ctor, i, rust(t)))
+    for (i, name) in rec_entries():
+        lines.append('    v.push(full::<crate::items_rec::%s>(%d, "%s"));' % (name, i, name))
     lines += ['    v', '}',
               '// second registration list: types with a BorshSchema impl (tyuniv.has_schema); same ids',
               'pub fn schema_catalogue() -> Vec<(u32, RunFn)> {',
